@@ -155,6 +155,11 @@ class WeightedInterpolator(NNBase):
 
         dimdiff = normalized_pts - self._tp[nloc]
 
+        # At a training point the interpolant returns the training value and is flat.
+        at_node = np.any(ndist == 0.0, axis=1)
+        if np.any(at_node):
+            ndist = np.where(at_node[:, np.newaxis], 1.0, ndist)
+
         weights = np.power(ndist, -dist_eff)
         dweights = -dist_eff * \
             np.power(ndist[..., np.newaxis], -(dist_eff + 2)) * dimdiff
@@ -166,6 +171,7 @@ class WeightedInterpolator(NNBase):
         gradient = (weight_sum * np.einsum('ikj,ikl->ilj', dweights, vals)
                     - (np.einsum('ij,ijk->ik', weights, vals)[..., np.newaxis]
                        * np.sum(dweights, axis=1))) / np.power(weight_sum, 2)
+        gradient[at_node] = 0.0
 
         grad = gradient * (self._tvr[..., np.newaxis] / self._tpr)
 
